@@ -166,3 +166,24 @@ func VerifParseTypeStrings(def string) (cql TypeInfo, classTypes []TypeInfo, isC
 	res := parseType(def, nopLogger{})
 	return cql, res.types, res.isComposite
 }
+
+// VerifAggregate describes one row of system_schema.aggregates as far as compileMetadata uses it.
+type VerifAggregate struct {
+	Name, StateFunc, FinalFunc string
+}
+
+// VerifCompileMetadata runs compileMetadata, the step that turns the rows read from the
+// schema tables into a KeyspaceMetadata, on the given rows.
+func VerifCompileMetadata(proto int, keyspace string, tables []TableMetadata, columns []ColumnMetadata, functions []FunctionMetadata, aggregates []VerifAggregate, views []ViewMetadata, mvBaseTables []string) *KeyspaceMetadata {
+	ks := &KeyspaceMetadata{Name: keyspace}
+	aggs := make([]AggregateMetadata, len(aggregates))
+	for i, a := range aggregates {
+		aggs[i] = AggregateMetadata{Keyspace: keyspace, Name: a.Name, stateFunc: a.StateFunc, finalFunc: a.FinalFunc}
+	}
+	mvs := make([]MaterializedViewMetadata, len(mvBaseTables))
+	for i, b := range mvBaseTables {
+		mvs[i] = MaterializedViewMetadata{Keyspace: keyspace, Name: fmt.Sprintf("mv%d", i), baseTableName: b}
+	}
+	compileMetadata(proto, ks, tables, columns, functions, aggs, views, mvs, nopLogger{})
+	return ks
+}
